@@ -101,17 +101,19 @@ def gen_ratio(r, kind="any"):
 
 
 def gen_allocation(r, family=None, scale_exp=None, max_cells=10, nmods=None, allow_empty=True, allow_fixed=True,
-                   allow_depth=True, drop_cells=True, slivers=True, offsets=False):
+                   allow_depth=True, drop_cells=True, slivers=True, offsets=False, extreme_scales=False):
     """Returns a dict:
       family, scale_exp, nx, ny, cells: [{"box":(x0,y0,x1,y1) lattice, "alloc":{m:ratio}, "depth":d, "fixed":bool}]
     The lattice may be refined locally by 'sliver' offsets: boxes then carry Fractions."""
     family = family or r.weighted([("dyadic", 5), ("decimal", 3), ("thirds", 1)])
-    scale_exp = r.choice([-1, 0, 0, 0, 1, 2]) if scale_exp is None else scale_exp
+    if scale_exp is None:
+        # designs come in all units: mostly around 1, sometimes in very small or very large absolute magnitudes
+        scale_exp = r.choice([-1, 0, 0, 0, 1, 2]) if not extreme_scales or r.chance(0.85) else r.choice([-7, -5, -3, 4, 6])
     nx, ny = r.randint(2, 12), r.randint(2, 12)
     ncells = r.randint(1, max_cells)
     # most layouts start at the origin; some lie far from it (coordinates large compared with the cells)
     ox, oy = (0, 0)
-    if offsets and r.chance(0.15):
+    if offsets and -1 <= scale_exp <= 2 and r.chance(0.15):
         ox, oy = r.choice([0, 1000, 100000]), r.choice([0, 1000, 100000, 333333])
     boxes = guillotine(r, (ox, oy, ox + nx, oy + ny), ncells)
     if drop_cells and len(boxes) > 2 and r.chance(0.3):
